@@ -107,6 +107,9 @@ class ProgramSpec(synspecs.TokenSpec):
             okn = (kk, a, b) in nodes or (kat(b) == comma and (kk, a, b - 1) in nodes) or (kat(b + 1) == comma and (kk, a, b + 1) in nodes)
             if not okn:
                 bad.append('C04: no %s node over tokens %d..%d (the grammar prescribes one)' % (kind, a, b))
+        for kk, a, b in degenerate(tree):
+            bad.append('C04: a %s node wraps nothing but another %s node (tokens %d..%d): the construct is nested twice, so the typed accessors that take "the %s child" find the wrapper instead of the thing itself'
+                       % (syn.INV.get(kk, kk), syn.INV.get(kk, kk), a, b, syn.INV.get(kk, kk)))
         rec = {'cls': 'ok', 'ok': True, 'nerr': len(errors), 'depth': it.maxdepth, 'lookaheads': 0}
         if bad:
             rec.update({'cls': 'violation', 'ok': False, 'why': bad[:4], 'cex': {'kinds': self.witness(it)}})
@@ -114,6 +117,33 @@ class ProgramSpec(synspecs.TokenSpec):
             rec['sample'] = {'program': self.name, 'tokens': self.witness(it)}
             rec['_tree'] = (log, [])
         return rec
+
+
+def degenerate(t):
+    """[(kind, first token, last token)] of nodes whose only child is a node of the same kind (works on engine trees and, with key 'k', native trees)"""
+    out = []
+    stack = [t]
+    while stack:
+        n = stack.pop()
+        if not isinstance(n, list):
+            continue
+        kids = [c for c in n[1:] if not (isinstance(c, dict) and c['k'] <= 3)]          # native trees: trivia tokens do not count
+        if len(kids) == 1 and isinstance(kids[0], list) and kids[0][0] == n[0]:
+            toks = _tokens(n) if not any(isinstance(x, dict) for x in _flat(n)) else [x['s'] for x in _flat(n) if isinstance(x, dict)]
+            out.append((n[0], min(toks) if toks else -1, max(toks) if toks else -1))
+        stack.extend(c for c in n[1:] if isinstance(c, list))
+    return out
+
+
+def _flat(n):
+    out = []; st = [n]
+    while st:
+        x = st.pop()
+        if isinstance(x, list):
+            st.extend(x[1:])
+        else:
+            out.append(x)
+    return out
 
 
 def _collect(t, nodes):
@@ -334,7 +364,7 @@ PROGRAMS = {
                                                   N('CLAUSE', N('ALTERNATIVE_PATTERN', N('LITERAL', LIT()), 'VBAR', N('LITERAL', LIT())), 'COMMA', N('ALTERNATIVE_PATTERN', N('HOLE', 'DISCARD_IDENT')),
                                                     N('PATTERN_GUARD', 'IF_KW', N('BINARY_OP', 'IDENT', OPNP(), 'IDENT')), 'R_ARROW', N('BLOCK', 'L_BRACE', 'IDENT', 'R_BRACE')),
                                                   N('CLAUSE', N('ALTERNATIVE_PATTERN', N('AS_PATTERN', N('PATTERN_TUPLE', 'HASH', 'L_PAREN', 'IDENT', 'COMMA', 'DISCARD_IDENT', 'R_PAREN'), 'AS_KW', 'IDENT')), 'COMMA',
-                                                    N('ALTERNATIVE_PATTERN', N('PATTERN_CONCAT', 'STRING', 'LT_GT', 'IDENT')), 'R_ARROW', 'IDENT'),
+                                                    N('ALTERNATIVE_PATTERN', N('PATTERN_CONCAT', N('LITERAL', 'STRING'), 'LT_GT', N('PATTERN_VARIABLE', N('NAME', 'IDENT')))), 'R_ARROW', 'IDENT'),
                                                   N('CLAUSE', N('ALTERNATIVE_PATTERN', N('VARIANT_REF', 'IDENT', 'DOT', 'U_IDENT')), 'COMMA', N('ALTERNATIVE_PATTERN', N('PATTERN_VARIABLE', 'IDENT')), 'R_ARROW', LIT()),
                                                   'R_BRACE'))]),
               N('MODULE_CONSTANT', 'CONST_KW', 'IDENT', 'EQ', LIT())),
@@ -384,7 +414,10 @@ def confirm(chk, res, oracle, sp, label):
             problem = 'native parser reports %s' % nat['errors'][:3]
         else:
             problem = 'native tree: %s' % _sexp(nat['tree'], txt)
-        chk.violation('structure', 'bounded', '%s: %s; program %r; %s' % (label, '; '.join(v['why'])[:300], txt, problem[:400]), {'text': txt, 'kinds': v['cex']['kinds']}, confirmed=True)
+        okc = True
+        if all('wraps nothing but' in w for w in v['why']):
+            okc = 'tree' in nat and bool(degenerate(nat['tree']))          # the native tree must show the same double nesting
+        chk.violation('structure', 'bounded', '%s: %s; program %r; %s' % (label, '; '.join(v['why'])[:300], txt, problem[:400]), {'text': txt, 'kinds': v['cex']['kinds']}, confirmed=okc)
 
 
 def _sexp(t, txt):
